@@ -54,6 +54,7 @@ type Contract struct {
 	NoBody   bool // contract only used at call sites (body not verified): trusted
 	Unproved map[string]string // site label -> reason (waivers)
 	Lets     map[string]ast.Expr
+	RecFuns  []*Pred
 }
 
 type Pred struct {
@@ -232,6 +233,19 @@ func (ss *SpecSet) parseFile(path string, trusted bool, pkgName string) {
 		case "props":
 			finish()
 			cur.Props = append(cur.Props, fields[1:]...)
+			continue
+		case "recfun":
+			finish()
+			m := regexp.MustCompile(`^recfun\s+([A-Za-z_][A-Za-z0-9_]*)\s*\(([^)]*)\)\s*=\s*(.*)$`).FindStringSubmatch(line)
+			if m == nil {
+				ss.Errors = append(ss.Errors, fmt.Sprintf("%s:%d: bad recfun definition", path, lineNo))
+				continue
+			}
+			pr := &Pred{Name: m[1], Params: []string{strings.TrimSpace(m[2])}}
+			cur.RecFuns = append(cur.RecFuns, pr)
+			curPred = pr
+			pending = &strings.Builder{}
+			pending.WriteString(m[3])
 			continue
 		case "let":
 			finish()
